@@ -160,7 +160,7 @@ def handle (req : Json) : Except String Json := do
   let chain ← (← arr (← field req "chain")).mapM parseStep
   let cfg ← parseCfg (fieldD req "cfg" (Json.mkObj []))
   let S0 : State := { stream := stream }
-  let hyp := chainHypB cfg chain S0
+  let hyp := chainHypB cfg chain S0 && alignedStreamB stream stream
   match runChain cfg chain S0 with
   | .error e => pure (obj [("model", obj [("error", Json.str (errName e))]), ("hyp", Json.bool hyp), ("spec", Json.bool true)])
   | .ok S =>
